@@ -74,6 +74,18 @@ CHECKS = {
         note="Quick tier compares the first 30 and last 12 tail intervals per zone and walks every 40th zone's tail to 9999; thorough compares all. CLDR windows mapping and zone locations fields are skipped by length only.",
         technique="independent TLA+ decoder of the database bytes run by TLC + rule evaluation in TLA+, compared with API walks by trace validation",
     ),
+    "C07": dict(
+        category="model_checking",
+        text=("PatternSemantics.tla states what a token sequence can represent (captured fields, precision, 12/24-hour and am/pm "
+              "completeness, era with year-of-era, template merging) and when numeric fields are delimited; a reference format/parse "
+              "semantics for numeric time patterns is model-checked by TLC (Representable => Parse(Format(v)) = v for every pattern of "
+              "up to 3 tokens x a value grid); on the real package, random custom patterns and the built-in round-trip/ISO patterns of 7 "
+              "types are exercised in the invariant and random ICU cultures over all calendars, and TLC decides per event whether the "
+              "round-trip law applies and checks round trip, re-format and determinism."),
+        design_ref="DESIGN.md section 5 C07",
+        note="Name fields only for cultures with distinct, prefix-free, digit-free names and ISO/Gregorian dates; embedded patterns, two-digit years and custom Duration/Instant patterns get determinism/re-format only; empty renderings make no promise.",
+        technique="TLA+ representability/delimitedness spec + reference semantics model-checked by TLC + TLC trace validation of format/parse events",
+    ),
     "C08": dict(
         category="model_checking",
         text=("TextProtocol.tla states the create/parse protocol; PatternScan.tla models the quoting layer of the pattern language as a "
